@@ -3,6 +3,8 @@
 // Contracts for govc (comment-only file; see /verif/DESIGN.md section 3).
 package party
 
+//@ spec fn ids_contains(Slice, Int) Bool
+
 //@ func (IDSlice).Contains
 //@   nopanic[C05]
 //@   modifies nothing
@@ -45,3 +47,7 @@ package party
 //@ func (*PointMap).MarshalBinary
 //@   nopanic[C05]
 //@   requires m != nil
+
+// Membership of an identifier in a sorted identifier slice, as a mathematical predicate (abstracts the binary search).
+//@ func (IDSlice).Contains
+//@   summary len(ids) == 1 ==> result == ids_contains(partyIDs, ids[0])
